@@ -33,6 +33,7 @@ REAL = {
     "lc_pkpi": dict(initial_state="Lambda(c)+", final_state=["p", "K-", "pi+"], allowed_intermediate_particles=["Lambda(1405)", "Delta(1232)++"], allowed_interaction_types=["strong", "EM", "weak"]),
     "d0_kskk": dict(initial_state="D0", final_state=["K~0", "K+", "K-"], allowed_intermediate_particles=["a(0)(980)", "phi(1020)"], allowed_interaction_types=["strong", "EM", "weak"]),
     "psi2s_ggjpsi": dict(initial_state=[("psi(2S)", [1])], final_state=["gamma", "gamma", "J/psi(1S)"], allowed_intermediate_particles=["chi(c1)(1P)"], allowed_interaction_types=["em"]),
+    "psi2s_ggjpsi_all": dict(initial_state="psi(2S)", final_state=["gamma", "gamma", "J/psi(1S)"], allowed_intermediate_particles=["chi(c1)(1P)"], allowed_interaction_types=["em"]),
     "jpsi_4body": dict(initial_state=[("J/psi(1S)", [1])], final_state=["gamma", "pi0", "pi0", "pi0"], allowed_intermediate_particles=["omega(782)", "f(0)(980)"], allowed_interaction_types=["strong", "EM"]),
 }
 
